@@ -358,12 +358,13 @@ TOK_TEXT = {"s.pn": "ex:a", "s.abs": "<http://x.org/s>", "s.rel": "<r1>", "s.bn"
 SUBJ_TOKS = ["s.pn", "s.abs", "s.rel", "s.bn", "s.https", "s.bs"]
 PRED_TOKS = ["p.pn", "p.a", "p.abs", "p.type", "p.bs"]
 OBJ_TOKS = ["o.pn", "o.abs", "o.rel", "o.bn", "o.int", "o.pint", "o.nint", "o.dot", "o.str", "o.xsd", "o.dti", "o.dtp", "o.dtg", "o.bs", "o.lang", "o.spec", "o.esc", "o.cls", "o.https"]
-GAPS = ["sp", "sp2", "tab", "nl", "nlsp", "cmt", "cline"]
+GAPS = ["sp", "sp2", "tab", "nl", "nlsp", "cmt", "tcmt", "cline"]
 HEADER = ["@prefix ex: <http://ex.org/> .", "@prefix xsd: <http://www.w3.org/2001/XMLSchema#> .",
           "@prefix rdf: <http://www.w3.org/1999/02/22-rdf-syntax-ns#> .", "@prefix geo: <http://www.w3.org/2003/01/geo/wgs84_pos#> .",
           "@prefix base: <http://bb.org/> .", "@prefix prefixes: <http://pp.org/> .", "@prefix rel: <http://r.org/v1.> .",
           "@base <http://b.org/d/> ."]
 COMMENT_TAIL = ' # c " .'
+TAB_COMMENT_TAIL = "\t# c ;"
 COMMENT_LINE = "# line ;"
 
 
@@ -385,6 +386,9 @@ def ttl_lines(toks, gaps):
             cur = "  "
         elif g == "cmt":
             lines.append(line + COMMENT_TAIL)
+            cur = ""
+        elif g == "tcmt":
+            lines.append(line + TAB_COMMENT_TAIL)
             cur = ""
         elif g == "cline":
             lines.append(line)
